@@ -262,6 +262,7 @@ func c21Step(st *c21State, op string, o *vu.Out) string {
 			return "bad-op"
 		}
 		preMax := l.max
+		preUnsent := l.sendMax.shouldSend()
 		id := newStreamID(clientSide, st.styp, num)
 		err := l.open(id)
 		res := "ok"
@@ -277,6 +278,17 @@ func c21Step(st *c21State, op string, o *vu.Out) string {
 		// ---- oracle: STREAM_LIMIT_ERROR iff the stream number is at or beyond the advertised limit
 		if (res == "err limit") != (num >= preMax) || res == "err other" {
 			o.Fail("", fmt.Sprintf("remote open(num=%d) with advertised max=%d gave %q", num, preMax, res))
+		}
+		// ---- literal reading: "beyond the ADVERTISED limit" = beyond the last value actually sent.
+		// lim.max is raised by maybeUpdateMax before the MAX_STREAMS frame is written, so in that
+		// window a stream number in [last sent, lim.max) is accepted (known finding, narrow sig).
+		if err == nil && num >= st.lastFrame {
+			if preUnsent && num < preMax {
+				o.Fail("accepts-beyond-unsent-limit", fmt.Sprintf("remote open(num=%d) accepted: the last MAX_STREAMS value sent to the peer is %d (lim.max=%d is still waiting to be sent)", num, st.lastFrame, preMax))
+				o.Stat("ropen:beyond-unsent-limit")
+			} else {
+				o.Fail("", fmt.Sprintf("remote open(num=%d) accepted beyond the sent limit %d with nothing pending (lim.max=%d)", num, st.lastFrame, preMax))
+			}
 		}
 		c21RemoteOracle(st, o, preMax, op)
 		return res + " " + c21RemoteState(l)
